@@ -17,7 +17,7 @@ Sub-directives (inside fn/fragment/arm)
   //@spec                      following lines go between the signature and the body `{`
   //@loop <n> [ghostname]      following lines go between the n-th loop header and its `{`
   //@before[#k] `anchor`       following lines go before the k-th (default: only) occurrence
-  //@after[#k] `anchor`        ... after it
+  //@after[#k] `anchor`        ... after it   (a trailing `?` as in //@before#4? makes the hint optional)
   //@rewrite[xN] `from` => `to`   exact textual rewrite, must match exactly N (default 1) times
 """
 import hashlib
@@ -167,13 +167,20 @@ def _process_item(kind, head, sub, meta):
                 if not mm:
                     raise ExtractError(f"{what}: no `in` in for loop #{n}")
                 inserts.append((lp["pos"] + mm.end(), order, f" {p[1]}:", f"loop{n}-ghostname"))
-        elif re.match(r"(before|after)(#\d+)?$", d):
-            mm = re.match(r"(before|after)(?:#(\d+))?$", d)
+        elif re.match(r"(before|after)(#\d+)?\??$", d):
+            mm = re.match(r"(before|after)(?:#(\d+))?(\?)?$", d)
             t = _ticks(tail)
             if len(t) != 1:
                 raise ExtractError(f"{what}: bad anchor directive")
             k = int(mm.group(2)) if mm.group(2) else None
-            pos = _find_occ(text, t[0], k, what)
+            try:
+                pos = _find_occ(text, t[0], k, what)
+            except ExtractError:
+                if mm.group(3):
+                    # optional hint: the statement it decorates is gone; the obligations it helped must now stand alone
+                    rec.setdefault("skipped_hints", []).append(f"{d} `{t[0]}`")
+                    continue
+                raise
             if mm.group(1) == "after":
                 pos += len(t[0])
             inserts.append((pos, order, "\n" + ghost + "\n", f"{mm.group(1)} `{t[0]}`"))
